@@ -131,14 +131,20 @@ def run(ctx):
     else:
         cb = cb[0]
         ctx.saw_fn(cb.name)
-        alls = [c for c in cb.calls() if c.name == "all" and c.trait == "std::iter::Iterator"]
+        alls = [c for c in cb.calls() if c.name in ("all", "any") and c.trait == "std::iter::Iterator" and not cb.is_cleanup(c.bb)]
         ok = False
         detail = None
         if len(alls) == 1:
             a = K.arg_terms(alls[0])
-            if a[1][0] == "closure" and re.search(r"slice$", render(a[0])):
-                ccls, pr = absint.byte_class(f, a[1][1], arg_index=1)
-                g = pred_matcher(r"::all$", (r"slice",))
+            # the whole argument (first parameter) is tested: `all(p)` must hold or, the same thing, `any(¬p)` must not;
+            # p may be a closure, a crate function or a std u8 predicate
+            arg_rx = r"(^|⟵)(Iterator::(copied|cloned)\()?%s\)?$" % re.escape(cb.local_name(1) or "_1")
+            if cb.arg_count == 1 and re.search(arg_rx, render(a[0])):
+                from props.C14 import predicate_class
+                ccls, pr = predicate_class(f, strip(a[1]))
+                if alls[0].name == "any" and ccls is not None:
+                    ccls = set(range(256)) - ccls
+                g = pred_matcher(r"::%s$" % alls[0].name, (arg_rx,), positive=(alls[0].name == "all"))
                 mp = MustPass(f, lambda c: False, guard_fn=lambda bd, s, bb: guard_edges(bd, s, bb, g), name="all bytes permitted")
                 ok = ccls == URI_CLASS_SPEC and not pr and mp.holds(cb.name)
                 detail = {"closure_class": absint.fmt_class(ccls), "problems": pr}
